@@ -378,6 +378,69 @@ func lentObject() {
 	vrt.Observe("step=%d", step)
 }
 
+// lentSubscribe: client B subscribes to a signal of the object client A lent
+// to the service: the registerEvent call travels through the service's relay
+// (bus.clientObject). Like every call it gets exactly one answer; afterwards
+// an event emitted by the object's host reaches the subscriber once.
+func lentSubscribe() {
+	w := fx.Start(bus.Yes{})
+	cA, cB := w.MustConnect(), w.MustConnect()
+	pA, pB := cA.Probe(1), cB.Probe(1)
+	mine := probe.New("lent")
+	svcA := pA.Proxy().ProxyService(cA.Session())
+	lent, err := probe.CreateProbe(cA.Session(), svcA, mine)
+	if err != nil {
+		vrt.Failf("harness/create", "%v", err)
+		return
+	}
+	if err := pA.Adopt(lent); err != nil {
+		vrt.Failf("harness/adopt", "%v", err)
+		return
+	}
+	o, err := pB.Adopted()
+	if err != nil {
+		vrt.Failf("harness/adopted", "%v", err)
+		return
+	}
+	vrt.Quiesce()
+	vrt.Explore()
+	var got []int32
+	var subErr error
+	returned := false
+	wb := vrt.GoWorker("B-subscribes", func() {
+		_, ch, err := o.SubscribeTick()
+		returned, subErr = true, err
+		if err != nil {
+			return
+		}
+		vrt.GoNamed("B-drain", func() {
+			for v := range ch {
+				got = append(got, v)
+			}
+		})
+	})
+	vrt.Quiesce()
+	if !wb.Done() {
+		vrt.Failf("hang/lent-object-subscribe", "client B's registerEvent call on the object lent by client A is never answered: SubscribeTick blocked on %s", wb.BlockedOn())
+		checkWire("connB", cB, nil)
+		return
+	}
+	vrt.Freeze()
+	if returned && subErr == nil {
+		for _, n := range []int32{1, 2} {
+			if err := mine.Helper.SignalTick(n); err != nil {
+				vrt.Failf("emit-error/lent-object", "the host of the lent object cannot emit tick(%d): %v", n, err)
+			}
+			vrt.Quiesce()
+		}
+		if fmt.Sprint(got) != "[1 2]" {
+			vrt.Failf("events-differ/lent-object", "subscribed to the lent object (SubscribeTick succeeded), its host emitted tick(1), tick(2); the subscriber received %v", got)
+		}
+	}
+	checkWire("connB", cB, nil)
+	vrt.Observe("subscribed=%v err=%v got=%v", returned, subErr, got)
+}
+
 // manyPending: more calls in flight on one connection than the endpoint's
 // ten preallocated handler slots; the call registered last is answered first
 // (it addresses another object); every call still gets its own answer.
@@ -621,6 +684,8 @@ func init() {
 		Doc: "two client objects on one connection (equal message counters) call the same action of two objects; the later call is answered first"})
 	reg.Register(&reg.Scenario{Property: "C04", Name: "lent-client-object", Body: lentObject, Quick: 1, Thorough: 2,
 		Doc: "client A lends an object it hosts to the service (adopt); client B obtains it (adopted) and calls echo(5) and echo(-7) on it through the service's relay while A calls the service: results and errors come back to their own callers"})
+	reg.Register(&reg.Scenario{Property: "C04", Name: "lent-client-object-subscribe", Body: lentSubscribe, Quick: 1, Thorough: 2,
+		Doc: "client B subscribes to a signal of the object client A lent to the service (registerEvent relayed by bus.clientObject): the call gets one answer; if it succeeds, the events emitted by the host arrive once"})
 	reg.Register(&reg.Scenario{Property: "C04", Name: "twelve-calls-in-flight", Body: manyPending, Quick: 0, Thorough: 1,
 		Doc: "eleven calls wait for a busy object on one connection (handler slots 0..10), a twelfth call to another object is answered first; then the object is released: every call gets its own answer"})
 	reg.Register(&reg.Scenario{Property: "C04", Name: "cancel-slow", Body: cancel(103, "slow(4)", fx.Int32(4), probe.EchoResult(4)), Quick: 2, Thorough: 3,
